@@ -5,12 +5,13 @@ CONSTANTS
   PolysPerTask = 2
   MaxRaw = 2
   Need = 2
-  FB = 1
+  FB = 2
   Target0 = 1
   Slack = 0
   Seq = TRUE
   UseLock = TRUE
   UseGapAtomic = TRUE
+  FinalTestsDone = TRUE
   AbortEnabled = TRUE
 INVARIANT TypeOK
 INVARIANT WriterExclusive
@@ -18,7 +19,6 @@ INVARIANT NoLostInsert
 INVARIANT FinalValid
 INVARIANT FlagsTruthful
 INVARIANT CompleteOrExhausted
-INVARIANT PanicOnlyIfShortOrStale
 INVARIANT NoSpuriousPanic
 INVARIANT AbortBounded
 CHECK_DEADLOCK TRUE
